@@ -980,7 +980,7 @@ fn main() {
             let mut r = Rng::new(args.seed);
             let thorough = args.tier == "thorough";
             let (n_hist, max_len, n_sum0, n_sum1, max_ops, n_adv) = if thorough {
-                (1200, 40, 500, 400, 20, 240)
+                (800, 40, 350, 300, 20, 160)
             } else {
                 (130, 16, 50, 40, 8, 32)
             };
